@@ -1267,4 +1267,46 @@ def run(ctx) -> None:
         ctx.extra["end_to_end"] = dict(scenarios=len(plan), traces_validated_by_tlc=nval, corrupted_traces_rejected=len(groups))
         rep.flush()
         phase("end_to_end_and_trace_validation")
+        wide_catalog(ctx, yaw, root)
         ctx.exhaustive = False
+
+
+def wide_catalog(ctx, yaw, root) -> None:
+    """Many patches (beyond the small domains of the model: index arithmetic at scale):
+    histogram and pair-count jackknife samples of a 200-patch catalog against the
+    leave-one-out statistic computed directly (sample k = total - contribution of patch k)."""
+    import pandas as pd
+
+    NP = 200
+    rng = np.random.default_rng(ctx.seed + 77)
+    pid = np.repeat(np.arange(NP), 2)
+    df = pd.DataFrame(dict(ra=10.0 + 0.5 * (pid % 20) + rng.uniform(0, 0.2, len(pid)), dec=-5.0 + 0.5 * (pid // 20) + rng.uniform(0, 0.2, len(pid)),
+                           w=rng.integers(1, 4, len(pid)).astype(float), z=rng.uniform(0.1, 1.0, len(pid)), pid=pid))
+    cat = yaw.Catalog.from_dataframe(root / "wide", df, ra_name="ra", dec_name="dec", weight_name="w", redshift_name="z", patch_name="pid",
+                                     overwrite=True, max_workers=1)
+    cfg = yaw.Configuration.create(rmin=0.1, rmax=1.0, unit="deg", zmin=0.1, zmax=1.0, num_bins=3)
+    edges = np.asarray(cfg.binning.edges)
+    hist = yaw.HistData.from_catalog(cat, cfg, max_workers=1)
+    per_patch = np.zeros((NP, 3))
+    for k in range(NP):
+        rows = df[df["pid"] == k]
+        idx = np.digitize(rows["z"].to_numpy(), edges, right=True)       # closed = right
+        for i, wgt in zip(idx, rows["w"].to_numpy()):
+            if 1 <= i <= 3:
+                per_patch[k, i - 1] += wgt
+    expected = per_patch.sum(axis=0)[None, :] - per_patch
+    ctx.evaluated(1, ("wide", "hist"))
+    ctx.validated(1)
+    if hist.samples.shape != expected.shape or not np.array_equal(hist.samples, expected):
+        bad = [int(k) for k in range(min(NP, hist.samples.shape[0])) if not np.array_equal(hist.samples[k], expected[k])]
+        ctx.violation("C03|HistData.from_catalog|many_patches|any_call|samples_not_leave_one_out",
+                      dict(patches=NP, wrong_samples=len(bad), first_wrong=bad[:5]))
+    (cf,) = yaw.autocorrelate(cfg, cat, cat, count_rr=False, max_workers=1)
+    arr = cf.dd.counts.get_array()
+    sp = cf.dd.counts.sample_patch_sum()
+    total = arr.sum(axis=(1, 2))
+    exp = np.array([total - arr[:, k, :].sum(axis=1) - arr[:, :, k].sum(axis=1) + arr[:, k, k] for k in range(NP)])
+    ctx.evaluated(1, ("wide", "counts"))
+    if not np.allclose(sp.samples, exp, rtol=1e-12, atol=0):
+        ctx.violation("C03|PatchedCounts.sample_patch_sum|many_patches|any_call|samples_not_leave_one_out", dict(patches=NP))
+    ctx.extra["wide_catalog"] = dict(patches=NP, histogram_samples_checked=NP, pair_count_samples_checked=NP)
